@@ -177,6 +177,8 @@ def check(c):
     if bool(T.is_template()) != bool(want):
         out.violations.append(Violation("parameters|is_template", "is_template()=%r with parameters %r\n%s" % (T.is_template(), sorted(want), text)))
         return out
+    if not want:
+        return Outcome(discard="no-parameter-evaluated (only in loop bodies that run zero times)")
     live = _live_symbols(T)
     if want - live:
         # a parameter that cancels identically, or whose only holder was declared again, occurs nowhere in the program
